@@ -351,4 +351,51 @@ theorem aFind_map_pair {α : Type} (f : Name → α) (order : List Name) (key : 
     · have h' : ¬ key = k := fun e => h e.symm
       simp only [List.map_cons, aFind, h, if_false, ih, List.mem_cons, h', false_or]
 
+/-! ### what `get` finds is listed by `scan("")` -/
+
+theorem scanLiveFrom_mem_of_find (tomb : List Nat) (key : Name) (vocab : List Name) (i j : Nat)
+    (h : findLiveFrom tomb key vocab i = some j) : (key, j) ∈ scanLiveFrom tomb [] vocab i := by
+  induction vocab generalizing i with
+  | nil => simp [findLiveFrom] at h
+  | cons k ks ih =>
+    simp only [findLiveFrom] at h
+    simp only [scanLiveFrom, List.isPrefixOf, true_and]
+    split at h
+    · rename_i hk
+      simp only [Option.some.injEq] at h
+      subst h
+      simp [hk.1, hk.2]
+    · have := ih (i + 1) h
+      split
+      · exact List.mem_cons_of_mem _ this
+      · exact this
+
+/-- a key that is not a cache key and that `get` finds is one of the keys `scan("")` lists -/
+theorem peek_some_mem_scan (r : Router) (key : Name) (hk : classifyKey key ≠ .cache) (h : (r.peek key).isSome) :
+    key ∈ r.scan [] := by
+  unfold Router.scan
+  rw [List.mem_eraseDups]
+  have hmd : (aFind key r.md).isSome → key ∈ (aKeys r.md).filter (fun k => ([] : Name).isPrefixOf k) := by
+    intro hm
+    rw [List.mem_filter]
+    exact ⟨(aFind_isSome_iff_mem key r.md).mp hm, by simp⟩
+  unfold Router.peek at h
+  cases hc : classifyKey key with
+  | cache => exact absurd hc hk
+  | embedding =>
+    rw [hc] at h
+    simp only at h
+    cases hg : r.index.get key with
+    | none =>
+      rw [hg] at h
+      exact List.mem_append_left _ (List.mem_append_left _ (hmd h))
+    | some id =>
+      apply List.mem_append_left
+      apply List.mem_append_right
+      rw [List.mem_map]
+      exact ⟨(key, id), scanLiveFrom_mem_of_find r.index.tomb key r.index.vocab 0 id hg, rfl⟩
+  | graph => rw [hc] at h; exact List.mem_append_left _ (List.mem_append_left _ (hmd h))
+  | table => rw [hc] at h; exact List.mem_append_left _ (List.mem_append_left _ (hmd h))
+  | metadata => rw [hc] at h; exact List.mem_append_left _ (List.mem_append_left _ (hmd h))
+
 end Neumann.Snap
